@@ -314,6 +314,7 @@ def run(ctx: Ctx):
     # ---- S6 a loop-carried accumulator whose length is asserted at emission is drained there -------------------------
     _drained_accumulators(ctx)
     _format_constants_and_order(ctx)
+    _boundary_cases_of_the_timed_writers(ctx)
     plumbing(ctx, "S1")
     return dict(
         explanation=(
@@ -504,6 +505,76 @@ def _format_constants_and_order(ctx: Ctx):
             f"different precision those values are rounded to the literal's digits (times not recovered to within the print precision) "
             f"and the file is inconsistent with its own bounds and with the point-tier inference") if fixed else "", rel,
            fixed[0].lineno if fixed else wt.line, sample=dict(follows=follows, fixed=len(fixed)))
+
+
+def _boundary_cases_of_the_timed_writers(ctx: Ctx):
+    """S8: (a) ctm: start times and durations are NON-NEGATIVE - a token at time 0 of duration 0 (an utterance-initial marker) is
+    expressible and must be written. Every refusal in write_ctm's per-token checks is evaluated (sa/inteval.py) for the token
+    ("a", 0.0, 0.0), for ("a", 1.5, 1.5) and ("a", 0.0, 2.0): none may fire; and for ("a", -1.0, 2.0), ("a", 1.0, -1.0): one must.
+    (b) TextGrid: without an explicit `point_tier` a tier is a point tier iff ALL its entries print the same start and end; inferred
+    from ANY such entry, one marker among proper intervals turns the whole tier into points and every interval's end is lost."""
+    from sa.inteval import NotEvaluable, int_eval
+    col, pkg = ctx.col, ctx.pkg
+    rel = pkg.module(MOD).relname
+    wc = pkg.func(f"{MOD}::write_ctm")
+    loops = [n for n in own_nodes(wc.node) if isinstance(n, ast.For) and isinstance(n.target, ast.Name)]
+    checks = []
+    for lp in loops:
+        tv = lp.target.id
+        unpacked = {}
+        for st in lp.body:
+            if isinstance(st, ast.Assign) and isinstance(st.targets[0], ast.Tuple) and isinstance(st.value, ast.Name) and st.value.id == tv \
+                    and len(st.targets[0].elts) == 3:
+                unpacked = {e_.id: i_ for i_, e_ in enumerate(st.targets[0].elts) if isinstance(e_, ast.Name)}
+        derived = {}
+        for st in lp.body:
+            if isinstance(st, ast.Assign) and len(st.targets) == 1 and isinstance(st.targets[0], ast.Name) and st.targets[0].id not in unpacked:
+                derived[st.targets[0].id] = st.value
+        for st in lp.body:
+            if isinstance(st, ast.If) and any(isinstance(x, ast.Raise) for x in st.body) and (
+                    tv in {x.id for x in ast.walk(st.test) if isinstance(x, ast.Name)} or set(unpacked) & {x.id for x in ast.walk(st.test) if isinstance(x, ast.Name)}
+                    or set(derived) & {x.id for x in ast.walk(st.test) if isinstance(x, ast.Name)}):
+                checks.append((st, tv, unpacked, derived))
+    col.floor("ctm_token_checks", len(checks), 1)
+    bad = None
+    try:
+        for tok, legal in ((("a", 0.0, 0.0), True), (("a", 1.5, 1.5), True), (("a", 0.0, 2.0), True), (("a", -1.0, 2.0), False), (("a", 1.0, -1.0), False),
+                           (("a", 3.0, 2.0), False)):
+            fired = False
+            for st, tv, unpacked, derived in checks:
+                def leaf(x, tok=tok, tv=tv, unpacked=unpacked, derived=derived):
+                    if isinstance(x, ast.Call) and call_name(x) == "isinstance":
+                        return False
+                    if isinstance(x, ast.Call) and call_name(x) == "len" and u(x.args[0]) == tv:
+                        return 3
+                    if isinstance(x, ast.Subscript) and u(x.value) == tv and isinstance(x.slice, ast.Constant):
+                        return tok[x.slice.value]
+                    if isinstance(x, ast.Name) and x.id in unpacked:
+                        return tok[unpacked[x.id]]
+                    if isinstance(x, ast.Name) and x.id in derived:
+                        return int_eval(derived[x.id], {"__leaf__": leaf})
+                    return None
+                if bool(int_eval(st.test, {"__leaf__": leaf})):
+                    fired = True
+            if fired == legal and bad is None:
+                bad = (tok, fired)
+    except NotEvaluable as e:
+        col.undecided(f"{rel}::write_ctm: the per-token checks are outside the evaluated fragment ({e})")
+        bad = None
+    col.ob("G12", "S8", f"{rel}::write_ctm::non-negative-times-and-durations-are-written", bad is None,
+           (f"the token {bad[0]} is {'refused' if bad[1] else 'accepted'} by write_ctm's checks; ctm start times and durations are non-negative reals, zero "
+            f"included: a zero-duration token at time 0 cannot be written (or an ill-formed one is)") if bad else "", rel, wc.line)
+    wt = pkg.func(f"{MOD}::write_textgrid")
+    pm_w = parent_map(wt.node)
+    infer = [n for n in own_nodes(wt.node) if isinstance(n, ast.Assign) and any(u(t_) == "point_tier" for t_ in n.targets)
+             and any("point_tier" in u(t_) and "None" in u(t_) for t_, _ in guards_of(pm_w, n))]
+    col.floor("point_tier_inferences", len(infer), 1)
+    wrong = [n for n in infer if not (isinstance(n.value, ast.Call) and call_name(n.value) == "all") and not (
+        isinstance(n.value, ast.UnaryOp) and isinstance(n.value.op, ast.Not) and isinstance(n.value.operand, ast.Call) and call_name(n.value.operand) == "any")]
+    col.ob("G13", "S8", f"{rel}::write_textgrid::point-tier-inferred-from-all-entries", not wrong,
+           (f"`{u(wrong[0])[:80]}` infers a point tier unless it is a universal statement over the entries: a single zero-length entry among proper "
+            f"intervals makes the whole tier a TextTier and every interval's end time is dropped on writing") if wrong else "", rel,
+           wrong[0].lineno if wrong else wt.line)
 
 
 def _mutants():
